@@ -32,6 +32,7 @@ def main():
     skip_suite = "--skip-suite" in sys.argv
     patch = os.path.join(src, "patch.diff")
     demo = os.path.join(src, "demo.py")
+    demo_orig = demo
     if not (os.path.exists(patch) and os.path.exists(demo)):
         print("missing patch.diff / demo.py in", src)
         return 2
@@ -49,6 +50,12 @@ def main():
         if rc:
             print("patch does not apply:", out)
             return 2
+        # demos written by the sub-agents may assert their own worktree path: substitute the scratch path
+        txt = open(demo).read().replace("/tmp/wt_%s" % pid, wt)
+        demo_run = os.path.join(wt, "_demo_seed.py")
+        with open(demo_run, "w") as fh:
+            fh.write(txt)
+        demo = demo_run
         rc_demo_with, out1 = sh("%s %s" % (PY, demo), cwd=wt, env=env, timeout=900)
         if rc_demo_with == 0 and "def test_" in open(demo).read():
             rc_demo_with, out1 = sh("%s -m pytest -q -p no:cacheprovider %s" % (PY, demo), cwd=wt, env=env, timeout=900)
@@ -59,7 +66,7 @@ def main():
             tail = out2.strip().splitlines()[-1] if out2.strip() else ""
             meta["suite_with_change"] = tail
             meta["suite_passes_with_change"] = ("104 passed" in tail or "105 passed" in tail) and "failed" not in tail
-        sh("git -C %s checkout -- ." % wt)
+        sh("git -C %s checkout -- sempler drf" % wt)
         runner = "%s -m pytest -q -p no:cacheprovider %s" % (PY, demo) if meta.get("demo_runner") == "pytest" else "%s %s" % (PY, demo)
         rc_demo_without, out3 = sh(runner, cwd=wt, env=env, timeout=900)
         meta["demo_passes_without_change"] = rc_demo_without == 0
@@ -101,7 +108,7 @@ def main():
         dst = os.path.join(VERIF, "seeded", name)
         os.makedirs(dst, exist_ok=True)
         shutil.copy(patch, os.path.join(dst, "patch.diff"))
-        shutil.copy(demo, os.path.join(dst, "demo.py"))
+        shutil.copy(demo_orig, os.path.join(dst, "demo.py"))
         if os.path.exists(notes):
             shutil.copy(notes, os.path.join(dst, "notes.md"))
         with open(os.path.join(dst, "meta.json"), "w") as f:
